@@ -133,6 +133,11 @@ def trace_leg(v, acc, scen, pids, env=None, procs=1, timeout=2400, max_rejects=8
     lines = []
     for r in recs:
         ev = r.get("ev")
+        if ev == "timeout" and "C10" not in pids:
+            # only C10 speaks about calls that do not return; elsewhere a call that outlasts the watchdog (it stops the
+            # driver) means the check could not be completed on this machine at this load -- never a verdict
+            raise vlib.Inconclusive("a %s call did not return within %s s (threshold %s, %s bytes, classifier %s): the run is incomplete"
+                                    % (r.get("api"), r.get("limit_s"), r.get("thr"), r.get("len"), r.get("c")))
         if ev in ("panic", "timeout"):
             v.fail("%s:%s" % (ev, r.get("api", "")), {k: r[k] for k in r if k != "input_b64" or len(r[k]) < 6000})
         elif ev == "probe":
